@@ -219,41 +219,146 @@ theorem truncation_delivers_prefix (hc : AeadOK c) (s : Sender) (pre : List Byte
             simp [hc.seal_len] at this; omega)
           (by simp [Receiver.midOf, hc.seal_len]; omega)]
 
+/-! ### The Init gate.  Every decision below is a definition of Generated/PeerGate.lean, translated from
+    peer_handler.rs on every run (tools/gen_peer_gate.py); the three `source_*` facts are what the gate
+    theorems rest on and they FAIL TO PROVE when the source lets any variant through before Init, drops
+    the second-Init test or changes what the `error` arm does. -/
+open Ldk.PeerGate (MK)
+
+/-- the Init arm is taken by `Message::Init` only -/
+theorem source_init_arm_iff (k : MK) : PeerGate.isInitArm k = true ↔ k = .Init := by
+  cases k <;> decide
+
+/-- **translated Need-an-Init rule:** while `their_features` is `None`, EVERY variant other than Init is
+    answered with `Err(PeerHandleError)` — the else-if body lets nothing through -/
+theorem source_gate_rejects_all_before_init (k : MK) (h : k ≠ .Init) :
+    PeerGate.rejectedBeforeInit false k = true := by
+  cases k <;> first | decide | exact absurd rfl h
+
+/-- after Init the Need-an-Init rule rejects nothing, and a second Init is rejected -/
+theorem source_gate_after_init (k : MK) :
+    PeerGate.rejectedBeforeInit true k = false ∧ PeerGate.secondInitRejected true = true
+      ∧ PeerGate.secondInitRejected false = false := by
+  cases k <;> decide
+
+/-- **translated dispatch facts:** `error` calls exactly `ChannelMessageHandler::handle_error`, first, and then
+    disconnects iff the channel id is all-zero; `warning`, `ping`, `pong` and unknown types reach no handler;
+    an unknown EVEN type disconnects, an unknown ODD one does not -/
+theorem source_dispatch_facts (e : Bool) :
+    PeerGate.dispatch .Error e = { calls := ["chan.handle_error"], disc := .ifZeroChannelId, mayFail := false, callFirst := true }
+    ∧ (PeerGate.dispatch .Warning e).calls = [] ∧ (PeerGate.dispatch .Warning e).disc = .never
+    ∧ (PeerGate.dispatch .Ping e).calls = [] ∧ (PeerGate.dispatch .Pong e).calls = []
+    ∧ (PeerGate.dispatch .Unknown e).calls = []
+    ∧ (PeerGate.dispatch .Unknown true).disc = .always ∧ (PeerGate.dispatch .Unknown false).disc = .never
+    ∧ (PeerGate.dispatch .Init e).calls = [] := by
+  cases e <;> decide
+
+/-- a non-Init message received while the peer's Init is outstanding: `Err(PeerHandleError)`, no handler call,
+    state unchanged — for EVERY variant (error / warning / ping / channel / gossip / custom / unknown) -/
+theorem no_handler_call_before_init (classify : Nat → MK) (initOk : Bytes → Bool) (g : Gate)
+    (hg : g.theirInit = false) (m : Bytes) (h : classify (msgType m) ≠ .Init) :
+    gateStep classify initOk g m = (g, .disconnect) := by
+  unfold gateStep
+  have h1 : PeerGate.isInitArm (classify (msgType m)) = false := by
+    cases hh : PeerGate.isInitArm (classify (msgType m))
+    · rfl
+    · exact absurd ((source_init_arm_iff _).mp hh) h
+  simp [h1, hg, source_gate_rejects_all_before_init _ h]
+example : gateStep (fun t => if t = 17 then .Error else .Unknown) (fun _ => true) Gate.start
+    ([0, 17] ++ List.replicate 32 42 ++ [0, 0]) = (Gate.start, .disconnect) :=
+  no_handler_call_before_init _ _ _ rfl _ (by decide)
+
 /-- **Init before anything.** Whatever the peer sends after the handshake, a message is handed to
     a handler only if the very first message was an accepted Init (and our own Init had been queued
     when the handshake completed). -/
-theorem init_before_anything (classify : Nat → Kind) (initOk : Bytes → Bool) (msgs : List Bytes)
+theorem init_before_anything (classify : Nat → MK) (initOk : Bytes → Bool) (msgs : List Bytes)
     (m : Bytes) (h : GateOut.passUp m ∈ gateRun classify initOk Gate.start msgs) :
-    ∃ m₀ rest, msgs = m₀ :: rest ∧ classify (msgType m₀) = .init ∧ initOk m₀ = true
+    ∃ m₀ rest, msgs = m₀ :: rest ∧ classify (msgType m₀) = .Init ∧ initOk m₀ = true
       ∧ (gateRun classify initOk Gate.start msgs).head? = some .initOk
       ∧ Gate.start.ourInitQueued = true := by
   cases msgs with
   | nil => simp [gateRun] at h
   | cons m₀ rest =>
     refine ⟨m₀, rest, rfl, ?_⟩
-    unfold gateRun gateStep at h ⊢
-    cases hk : classify (msgType m₀) <;> simp [hk, Gate.start] at h ⊢
-    · by_cases hi : initOk m₀ = true
-      · simp [hi]
-      · simp [hi] at h
+    by_cases hk : classify (msgType m₀) = .Init
+    · unfold gateRun gateStep at h ⊢
+      have h1 : PeerGate.isInitArm MK.Init = true := rfl
+      rw [hk] at h ⊢
+      by_cases hi : initOk m₀ = true
+      · simp [h1, hi, Gate.start, (source_gate_after_init .Init).2.2]
+      · simp [h1, hi, Gate.start] at h
+    · rw [gateRun, no_handler_call_before_init classify initOk Gate.start rfl m₀ hk] at h
+      simp at h
 
 /-- a non-Init first message drops the connection and nothing is processed -/
-theorem non_init_first_disconnects (classify : Nat → Kind) (initOk : Bytes → Bool) (m₀ : Bytes)
-    (rest : List Bytes) (h : classify (msgType m₀) ≠ .init) :
+theorem non_init_first_disconnects (classify : Nat → MK) (initOk : Bytes → Bool) (m₀ : Bytes)
+    (rest : List Bytes) (h : classify (msgType m₀) ≠ .Init) :
     gateRun classify initOk Gate.start (m₀ :: rest) = [.disconnect] := by
-  unfold gateRun gateStep
-  cases hk : classify (msgType m₀) <;> simp [hk, Gate.start] at h ⊢
+  rw [gateRun, no_handler_call_before_init classify initOk Gate.start rfl m₀ h]
+
+/-- a second Init drops the connection -/
+theorem second_init_disconnects (classify : Nat → MK) (initOk : Bytes → Bool) (m : Bytes)
+    (rest : List Bytes) (hk : classify (msgType m) = .Init) :
+    gateRun classify initOk { theirInit := true, ourInitQueued := true } (m :: rest) = [.disconnect] := by
+  rw [gateRun]
+  unfold gateStep
+  have h1 : PeerGate.isInitArm MK.Init = true := rfl
+  rw [hk]
+  by_cases hi : initOk m = true <;> simp [h1, hi, (source_gate_after_init .Init).2.1]
+example : gateRun (fun t => if t = 16 then .Init else .Unknown) (fun _ => true) Gate.start [[0, 16], [0, 16], [0, 3]]
+    = [.initOk, .disconnect] := by decide
 
 /-- after Init: an unknown EVEN type drops the connection, an unknown ODD type is ignored and the
     following messages are still processed -/
-theorem unknown_even_odd_rule (classify : Nat → Kind) (initOk : Bytes → Bool) (m : Bytes)
-    (rest : List Bytes) (hk : classify (msgType m) = .unknown) :
+theorem unknown_even_odd_rule (classify : Nat → MK) (initOk : Bytes → Bool) (m : Bytes)
+    (rest : List Bytes) (hk : classify (msgType m) = .Unknown) :
     gateRun classify initOk { theirInit := true, ourInitQueued := true } (m :: rest)
       = if msgType m % 2 = 0 then [.disconnect]
         else .ignored :: gateRun classify initOk { theirInit := true, ourInitQueued := true } rest := by
   rw [gateRun]
-  unfold gateStep
-  by_cases he : msgType m % 2 = 0 <;> simp [hk, he]
+  unfold gateStep dispatchOut armDisconnects
+  have h0 : PeerGate.isInitArm MK.Unknown = false := by decide
+  have h2 := (source_gate_after_init .Unknown).1
+  rw [hk]
+  by_cases he : msgType m % 2 = 0
+  · have hb : (msgType m % 2 == 0) = true := by simp [he]
+    have := (source_dispatch_facts true)
+    simp [he, hb, h0, h2, this.2.2.2.2.2.1, this.2.2.2.2.2.2.1]
+  · have hb : (msgType m % 2 == 0) = false := by simp [he]
+    have := (source_dispatch_facts false)
+    simp [he, hb, h0, h2, this.2.2.2.2.2.1, this.2.2.2.2.2.2.2.1]
+
+/-- **What an `error` does** (after Init): `ChannelMessageHandler::handle_error` is invoked; the peer is dropped
+    afterwards iff the channel id is all-zero, otherwise the following messages are still processed -/
+theorem error_dispatch_rule (classify : Nat → MK) (initOk : Bytes → Bool) (m : Bytes)
+    (rest : List Bytes) (hk : classify (msgType m) = .Error) :
+    gateRun classify initOk { theirInit := true, ourInitQueued := true } (m :: rest)
+      = if chanIdZero m then [.passUp m, .disconnect]
+        else .passUp m :: gateRun classify initOk { theirInit := true, ourInitQueued := true } rest := by
+  rw [gateRun]
+  unfold gateStep dispatchOut armDisconnects
+  have h0 : PeerGate.isInitArm MK.Error = false := by decide
+  have h2 := (source_gate_after_init .Error).1
+  have h3 := (source_dispatch_facts (msgType m % 2 == 0)).1
+  rw [hk]
+  by_cases hz : chanIdZero m = true <;> simp [h0, h2, h3, hz]
+example : gateRun (fun t => if t = 16 then .Init else if t = 17 then .Error else .Unknown) (fun _ => true) Gate.start
+    [[0, 16], [0, 17] ++ List.replicate 32 42 ++ [0, 0], [0, 17] ++ List.replicate 32 0 ++ [0, 0], [0, 3]]
+    = [.initOk, .passUp ([0, 17] ++ List.replicate 32 42 ++ [0, 0]), .passUp ([0, 17] ++ List.replicate 32 0 ++ [0, 0]), .disconnect] := by
+  decide
+
+/-- a `warning` (after Init) reaches no handler and keeps the peer -/
+theorem warning_is_only_logged (classify : Nat → MK) (initOk : Bytes → Bool) (m : Bytes)
+    (rest : List Bytes) (hk : classify (msgType m) = .Warning) :
+    gateRun classify initOk { theirInit := true, ourInitQueued := true } (m :: rest)
+      = .ignored :: gateRun classify initOk { theirInit := true, ourInitQueued := true } rest := by
+  rw [gateRun]
+  unfold gateStep dispatchOut armDisconnects
+  have h0 : PeerGate.isInitArm MK.Warning = false := by decide
+  have h2 := (source_gate_after_init .Warning).1
+  have h3 := (source_dispatch_facts (msgType m % 2 == 0))
+  rw [hk]
+  simp [h0, h2, h3.2.1, h3.2.2.1]
 
 /-- **Handshake.** Under Diffie–Hellman commutativity and AEAD correctness the three acts are
     accepted, the responder learns the initiator's static key, and the transport keys are mirror
@@ -377,9 +482,9 @@ example : ∃ kI kR, runHandshake toy [1] [2] [3] [4] = some (kI, toy.pubOf [1],
   ⟨kI, kR, h, h1⟩
 
 -- the gate: ping before Init is dropped; Init, then an unknown odd type, then a custom message
-example : gateRun (fun t => if t = 16 then .init else if t = 40001 then .known else .unknown)
+example : gateRun (fun t => if t = 16 then .Init else if t = 40001 then .Custom else .Unknown)
     (fun _ => true) Gate.start [[0, 18, 0, 0], [0, 16]] = [.disconnect] := by decide
-example : gateRun (fun t => if t = 16 then .init else if t = 40001 then .known else .unknown)
+example : gateRun (fun t => if t = 16 then .Init else if t = 40001 then .Custom else .Unknown)
     (fun _ => true) Gate.start [[0, 16], [0x40, 0x01], [0x9c, 0x41, 9], [0x40, 0x02], [0x9c, 0x41]]
     = [.initOk, .ignored, .passUp [0x9c, 0x41, 9], .disconnect] := by decide
 
@@ -498,7 +603,7 @@ example : ∃ r, pingReply 65531 = some r ∧ r.length = 65535 ∧ send toy s0 r
     received message sequence (any bytes, any types, decodable or not, before or after Init) every
     reply handed to enqueue_message (pong, decode-failure warning) has 2 … `LN_MAX_MSG_LEN` bytes, so
     `encrypt_message` never refuses it. -/
-theorem node_replies_fit (classify : Nat → Kind) (initOk : Bytes → Bool) (other : Bytes → Decoded)
+theorem node_replies_fit (classify : Nat → PeerGate.MK) (initOk : Bytes → Bool) (other : Bytes → Decoded)
     (g : Gate) (received : List Bytes) (s : Sender) :
     ∀ r ∈ repliesOf (nodeRun classify initOk other g received),
       2 ≤ r.length ∧ r.length ≤ Ldk.LN_MAX_MSG_LEN ∧ send c s r = some (frame c s r) := by
@@ -509,7 +614,7 @@ theorem node_replies_fit (classify : Nat → Kind) (initOk : Bytes → Bool) (ot
   rw [if_neg (by have := h.2; omega)]
 -- Init, a ping asking for 3 bytes, a ping asking for 65532 (ignored), an undecodable gossip message
 -- (warning), a ping that does not decode (drop): two replies, then the drop
-example : nodeRun (fun t => if t = 16 then .init else .unknown) (fun _ => true)
+example : nodeRun (fun t => if t = 16 then .Init else .Unknown) (fun _ => true)
       (fun m => if msgType m = 256 then .bogusGossip else .ok) Gate.start
       [[0, 16], [0, 18, 0, 3, 0, 1, 9], [0, 18, 0xff, 0xfc, 0, 0], [1, 0, 7], [0, 18, 0, 0, 0, 2, 0], [0, 16]]
     = [.reply [0, 19, 0, 3, 0, 0, 0], .reply (bogusGossipWarning 256), .disc] := by decide
@@ -517,7 +622,7 @@ example : nodeRun (fun t => if t = 16 then .init else .unknown) (fun _ => true)
 
 /-- **… and is delivered**: the replies, framed by the node's sender, reach the peer exactly and in
     order for every partition of the ciphertext into reads (nothing is dropped silently). -/
-theorem node_replies_delivered (hc : AeadOK c) (classify : Nat → Kind) (initOk : Bytes → Bool)
+theorem node_replies_delivered (hc : AeadOK c) (classify : Nat → PeerGate.MK) (initOk : Bytes → Bool)
     (other : Bytes → Decoded) (g : Gate) (received : List Bytes) (s : Sender) (chunks : List Bytes)
     (hch : chunks.flatten = (sendAll c s (repliesOf (nodeRun classify initOk other g received))).1) :
     recvChunks c (Receiver.mirrorOf s) chunks
@@ -530,12 +635,12 @@ example (chunks : List Bytes)
     recvChunks toy (Receiver.mirrorOf s0) chunks
       = ([encodePong 3, encodePong 5],
          some (Receiver.mirrorOf (sendAll toy s0 [encodePong 3, encodePong 5]).2)) := by
-  have hr : repliesOf (nodeRun (fun _ => .unknown) (fun _ => true) (fun _ => .ok)
+  have hr : repliesOf (nodeRun (fun _ => .Unknown) (fun _ => true) (fun _ => .ok)
       { theirInit := true, ourInitQueued := true } [[0, 18, 0, 3, 0, 0], [0, 18, 0, 5, 0, 0]])
       = [encodePong 3, encodePong 5] := by
     simp only [nodeRun, nodeStep, decode]
     decide
-  have := node_replies_delivered toy toy_aeadOK (fun _ => .unknown) (fun _ => true) (fun _ => .ok)
+  have := node_replies_delivered toy toy_aeadOK (fun _ => .Unknown) (fun _ => true) (fun _ => .ok)
     { theirInit := true, ourInitQueued := true } [[0, 18, 0, 3, 0, 0], [0, 18, 0, 5, 0, 0]] s0 chunks
   rw [hr] at this
   exact this h
@@ -544,7 +649,7 @@ example (chunks : List Bytes)
 /-- **What a ping does**, for every message of type 18 that decodes (any `byteslen`, trailing bytes
     allowed) received after Init: the reply is `Pong { byteslen: ponglen }` iff `ponglen < 65532`,
     otherwise nothing; the connection is kept and nothing is passed to a handler. -/
-theorem ping_answered_exactly (classify : Nat → Kind) (initOk : Bytes → Bool) (other : Bytes → Decoded)
+theorem ping_answered_exactly (classify : Nat → PeerGate.MK) (initOk : Bytes → Bool) (other : Bytes → Decoded)
     (g : Gate) (hg : g.theirInit = true) (m : Bytes) (hty : msgType m = 18) (ponglen byteslen : Nat)
     (hp : parsePing (m.drop 2) = some (ponglen, byteslen)) :
     nodeStep classify initOk other g m
@@ -555,14 +660,90 @@ theorem ping_answered_exactly (classify : Nat → Kind) (initOk : Bytes → Bool
   by_cases h : ponglen < 65532 <;> simp [h]
 /-- a message of type 18 that does not decode (shorter than its two u16s, or `byteslen` larger than
     what follows) drops the connection -/
-theorem malformed_ping_disconnects (classify : Nat → Kind) (initOk : Bytes → Bool)
+theorem malformed_ping_disconnects (classify : Nat → PeerGate.MK) (initOk : Bytes → Bool)
     (other : Bytes → Decoded) (g : Gate) (m : Bytes) (hty : msgType m = 18)
     (hp : parsePing (m.drop 2) = none) :
     nodeStep classify initOk other g m = (g, [.disc]) := by
   unfold nodeStep decode
   simp [hty, PING_TYPE, hp]
-example (g : Gate) : nodeStep (fun _ => .unknown) (fun _ => true) (fun _ => .ok) g [0, 18, 0, 0, 0, 2, 0]
+example (g : Gate) : nodeStep (fun _ => .Unknown) (fun _ => true) (fun _ => .ok) g [0, 18, 0, 0, 0, 2, 0]
     = (g, [.disc]) := malformed_ping_disconnects _ _ _ g _ (by decide) (by decide)
+
+
+/-- one message while the peer's Init is outstanding: the peer is dropped, or the message did not decode and was answered
+    with a warning (acted on before the gate; state unchanged), or it is an accepted Init — never a handler call -/
+theorem nodeStep_before_init (classify : Nat → PeerGate.MK) (initOk : Bytes → Bool) (other : Bytes → Decoded)
+    (g : Gate) (hg : g.theirInit = false) (m : Bytes) :
+    (nodeStep classify initOk other g m).2 = [.disc]
+    ∨ ((decode other m = .bogusGossip ∨ decode other m = .zlib) ∧ ∃ r, nodeStep classify initOk other g m = (g, [.reply r]))
+    ∨ (classify (msgType m) = .Init ∧ initOk m = true ∧ decode other m = .ok
+        ∧ (nodeStep classify initOk other g m).2 = []) := by
+  unfold nodeStep
+  cases hd : decode other m with
+  | fatal => left; rfl
+  | bogusGossip => right; left; exact ⟨Or.inl rfl, _, rfl⟩
+  | zlib => right; left; exact ⟨Or.inr rfl, _, rfl⟩
+  | ok =>
+    simp only []
+    by_cases hp : msgType m = PING_TYPE
+    · left; simp [hp, hg]
+    · by_cases hq : msgType m = PONG_TYPE
+      · left; simp [hp, hq, hg]
+      · simp only [hp, hq, if_false]
+        by_cases hk : classify (msgType m) = .Init
+        · by_cases hi : initOk m = true
+          · right; right
+            refine ⟨hk, hi, by first | trivial | rfl, ?_⟩
+            unfold gateStep
+            have h1 : PeerGate.isInitArm PeerGate.MK.Init = true := rfl
+            rw [hk]
+            simp [h1, hi, hg, (source_gate_after_init .Init).2.2]
+          · left
+            unfold gateStep
+            have h1 : PeerGate.isInitArm PeerGate.MK.Init = true := rfl
+            rw [hk]
+            simp [h1, hi]
+        · left
+          rw [no_handler_call_before_init classify initOk g hg m hk]
+
+/-- **No handler is invoked before both Inits are exchanged** — for the node model the driver runs (`nodeRun`: decode-error
+    table, Init gate, Ping / Pong arms), from the state right after the handshake (our Init queued, theirs outstanding):
+    if ANY message is handed to a channel / routing / onion / custom handler, an accepted Init precedes it in the
+    received sequence, and everything before that Init was an undecodable message answered with a warning (acted on
+    before the gate, never handed to a handler). -/
+theorem node_no_handler_before_init (classify : Nat → PeerGate.MK) (initOk : Bytes → Bool) (other : Bytes → Decoded) :
+    ∀ (msgs : List Bytes) (g : Gate) (x : Bytes), g.theirInit = false →
+      Ev.up x ∈ nodeRun classify initOk other g msgs →
+      ∃ pre m₀ post, msgs = pre ++ m₀ :: post ∧ classify (msgType m₀) = .Init ∧ initOk m₀ = true
+        ∧ decode other m₀ = .ok
+        ∧ ∀ p ∈ pre, decode other p = .bogusGossip ∨ decode other p = .zlib := by
+  intro msgs
+  induction msgs with
+  | nil => intro g x _ h; simp [nodeRun] at h
+  | cons m ms ih =>
+    intro g x hg h
+    unfold nodeRun at h
+    rcases nodeStep_before_init classify initOk other g hg m with h1 | ⟨hdec, r, h2⟩ | ⟨hk, hi, hd, h3⟩
+    · generalize hs : nodeStep classify initOk other g m = st at h h1
+      obtain ⟨g1, evs⟩ := st
+      simp only [] at h h1
+      subst h1
+      simp at h
+    · rw [h2] at h
+      simp at h
+      obtain ⟨pre, m₀, post, he, hk, hi, hd, hpre⟩ := ih g x hg h
+      refine ⟨m :: pre, m₀, post, by simp [he], hk, hi, hd, ?_⟩
+      intro p hp
+      rcases List.mem_cons.mp hp with rfl | hp
+      · exact hdec
+      · exact hpre p hp
+    · exact ⟨[], m, ms, rfl, hk, hi, hd, by simp⟩
+example : nodeRun (fun t => if t = 16 then .Init else if t = 17 then .Error else .Unknown) (fun _ => true) (fun _ => .ok)
+      Gate.start [[0, 17] ++ List.replicate 32 42 ++ [0, 0], [0, 16]] = [.disc] := by decide
+example : upsOf (nodeRun (fun t => if t = 16 then .Init else if t = 17 then .Error else .Unknown) (fun _ => true)
+      (fun m => if msgType m = 256 then .bogusGossip else .ok)
+      Gate.start [[1, 0, 7], [0, 16], [0, 17] ++ List.replicate 32 42 ++ [0, 0]])
+    = [[0, 17] ++ List.replicate 32 42 ++ [0, 0]] := by decide
 
 
 /-- `parsePing` inverts `encodePing` (so the theorems above are about the pings a peer encodes) -/
@@ -585,9 +766,9 @@ theorem parsePing_encodePing (ponglen byteslen : Nat) (hp : ponglen < 65536) (hb
   omega
 
 example (g : Gate) (hg : g.theirInit = true) :
-    nodeStep (fun _ => .unknown) (fun _ => true) (fun _ => .ok) g (encodePing 65532 5 ++ [1, 2])
+    nodeStep (fun _ => .Unknown) (fun _ => true) (fun _ => .ok) g (encodePing 65532 5 ++ [1, 2])
       = (g, []) := by
-  have := ping_answered_exactly (fun _ => .unknown) (fun _ => true) (fun _ => .ok) g hg
+  have := ping_answered_exactly (fun _ => .Unknown) (fun _ => true) (fun _ => .ok) g hg
     (encodePing 65532 5 ++ [1, 2]) (by decide) 65532 5 (parsePing_encodePing 65532 5 (by omega) (by omega) _)
   simpa using this
 
